@@ -217,7 +217,7 @@ func (eci *ECInstance) GetDecision(participant gpbft.ActorID) *gpbft.ECChain {
 }
 
 func (ec *simEC) HasInstance(instance uint64) bool {
-	return ec.Len() > int(instance)
+	return instance < uint64(ec.Len())
 }
 
 func (eci *ECInstance) Print() {
